@@ -1,7 +1,8 @@
 #!/bin/sh
 # Re-evaluate every seeded change against the current checks (isolated clone /tmp/seedeval/{verif,repo}; /repo itself is
 # never modified). usage: tools/seed_regress.sh [ids...]   (default: all of /verif/seeded)
-EV=/tmp/seedeval
+EV=${SEEDEVAL_DIR:-/tmp/seedeval}
+export SEEDEVAL_DIR=$EV
 [ -d $EV/verif ] || { mkdir -p $EV && git clone -q /verif $EV/verif; }
 [ -d $EV/repo ] || git -C /repo worktree add --detach $EV/repo HEAD
 cd $EV/verif && git fetch -q origin && git reset -q --hard origin/main && python3 run_check.py --setup >/dev/null 2>&1
